@@ -10,7 +10,7 @@ for pd in $src/*/; do
   units=$(python3 /verif/tools/affected.py $d/repo)
   [ -z "$units" ] && echo "$n no-unit-affected" | tee -a $log
   for u in $units; do
-    r=$(VERIF_REPO=$d/repo VERIF_OUT=$d/out /verif/check $u 2>&1 | grep -E "^(VIOLATION|OK|UNDECIDED|KNOWN)" | head -1 | cut -c1-400)
+    r=$(VERIF_REPO=$d/repo VERIF_OUT=$d/out /verif/check $u 2>&1 | grep -E "^(VIOLATION|OK|UNDECIDED)" | head -1 | cut -c1-400)
     echo "$n $u $r" | tee -a $log
   done
   rm -rf $d
